@@ -34,6 +34,7 @@ TRAILERS = [
     "               0.00 seconds searching, evaluating 4 states, to a max depth of 1\n"
     "               0.00 seconds total time\n\n",
     "\n",
+    "",  # the log ends with the plan (truncated output, or a front end that prints only the plan section)
 ]
 NO_SOLUTION_LOGS = [
     ("best first search space empty! problem proven unsolvable.\n\n", "no-solution"),
@@ -437,6 +438,12 @@ def tasks_for(tier, seed):
         for tl in tls[:4]:
             tasks.append({"kind": "ff", "entry": "content", "word_lens": ws, "trailer_len": tl, "numbers": [0, 1, 2][: len(ws)],
                           "indent": 4, "header": 1, "trailer": 0, "crlf": False, "blank_after_plan": False, "free_line": True})
+    # the log ends right after the newline of the last step / after one blank line / after a free line without the summary
+    for entry in ("content", "status", "parse_plan"):
+        for ws in word_shapes_1[:4] + word_shapes_2[:2]:
+            for blank, tl in ((False, 0), (True, 0), (False, 2)):
+                tasks.append({"kind": "ff", "entry": entry, "word_lens": ws, "trailer_len": tl, "numbers": [0, 1, 2][: len(ws)],
+                              "indent": 4, "header": 1, "trailer": 2, "crlf": False, "blank_after_plan": blank, "free_line": tl > 0})
     for v in range(len(NO_SOLUTION_LOGS)):
         for tl in (0, 2, 3) if tier == "quick" else (0, 2, 3, 4):
             tasks.append({"kind": "noplan", "variant": v, "trailer_len": tl, "header": v % 2})
